@@ -3,7 +3,6 @@ package main
 import (
 	"fmt"
 	"go/token"
-	"sort"
 	"strings"
 
 	"golang.org/x/tools/go/ssa"
@@ -197,54 +196,88 @@ func (c *Ctx) checkConstIndexGuards(rule string, fns []*ssa.Function) {
 func (c *Ctx) checkIsLocalTable(fn *ssa.Function) {
 	p := c.P
 	rule := "O-2 range table = RFC table"
+	// a byte test: the set of values of byte k of `base` for which it holds
 	type atom struct {
 		base ssa.Value // the slice indexed
 		k    int64
-		mask int64
-		val  int64
+		set  [256]bool
 	}
-	// recognise b[k] == c  /  b[k]&m == c
+	byteRef := func(l ssa.Value) (base ssa.Value, k int64, mask int64, ok bool) {
+		mask = 0xff
+		if bo, okb := l.(*ssa.BinOp); okb && bo.Op == token.AND {
+			m, okm := constInt(bo.Y)
+			if !okm {
+				return nil, 0, 0, false
+			}
+			mask = m
+			l = bo.X
+		}
+		u, okl := l.(*ssa.UnOp)
+		if !okl || u.Op != token.MUL {
+			return nil, 0, 0, false
+		}
+		ia, oki := u.X.(*ssa.IndexAddr)
+		if !oki {
+			return nil, 0, 0, false
+		}
+		k, okk := constInt(ia.Index)
+		if !okk {
+			return nil, 0, 0, false
+		}
+		return ia.X, k, mask, true
+	}
+	// recognise b[k] == c, b[k]&m == c, b[k] < c, b[k] <= c, c < b[k], c <= b[k]
 	byteAtom := func(a Atom) (atom, bool) {
-		if a.Op != token.EQL {
+		rel := func(v, cv int64, byteLeft bool) bool {
+			switch a.Op {
+			case token.EQL:
+				return v == cv
+			case token.LSS:
+				if byteLeft {
+					return v < cv
+				}
+				return cv < v
+			case token.LEQ:
+				if byteLeft {
+					return v <= cv
+				}
+				return cv <= v
+			}
+			return false
+		}
+		if a.Op != token.EQL && a.Op != token.LSS && a.Op != token.LEQ {
 			return atom{}, false
 		}
-		try := func(l, r ssa.Value) (atom, bool) {
+		try := func(l, r ssa.Value, byteLeft bool) (atom, bool) {
 			cv, ok := constInt(r)
 			if !ok {
 				return atom{}, false
 			}
-			mask := int64(0xff)
-			if bo, okb := l.(*ssa.BinOp); okb && bo.Op == token.AND {
-				m, okm := constInt(bo.Y)
-				if !okm {
-					return atom{}, false
-				}
-				mask = m
-				l = bo.X
-			}
-			u, okl := l.(*ssa.UnOp)
-			if !okl || u.Op != token.MUL {
+			base, k, mask, okb := byteRef(l)
+			if !okb {
 				return atom{}, false
 			}
-			ia, oki := u.X.(*ssa.IndexAddr)
-			if !oki {
-				return atom{}, false
+			at := atom{base: base, k: k}
+			for v := int64(0); v < 256; v++ {
+				at.set[v] = rel(v&mask, cv, byteLeft)
 			}
-			k, okk := constInt(ia.Index)
-			if !okk {
-				return atom{}, false
-			}
-			return atom{ia.X, k, mask, cv}, true
-		}
-		if at, ok := try(a.X, a.Y); ok {
 			return at, true
 		}
-		return try(a.Y, a.X)
+		if at, ok := try(a.X, a.Y, true); ok {
+			return at, true
+		}
+		return try(a.Y, a.X, false)
 	}
-	// enumerate paths; collect positive byte atoms; outcome by the returned value
+	negate := func(at atom) atom {
+		for v := range at.set {
+			at.set[v] = !at.set[v]
+		}
+		return at
+	}
+	// enumerate paths; collect byte atoms (with their outcome); verdict by the returned value
 	type pathRes struct {
 		atoms []atom
-		fam   string
+		v6len bool
 	}
 	var trues []pathRes
 	undec := ""
@@ -295,43 +328,31 @@ func (c *Ctx) checkIsLocalTable(fn *ssa.Function) {
 		switch t := last.(type) {
 		case *ssa.Return:
 			v := resolve(t.Results[0], b, prev)
-			fam := func(as []atom) string {
-				if len(as) == 0 {
-					return ""
-				}
-				if as[0].base == to4 {
-					return "v4"
-				}
-				if v6len {
-					return "v6"
-				}
-				return "?"
-			}
 			if k, ok := v.(*ssa.Const); ok {
 				if k.Value != nil && k.Value.String() == "true" {
-					trues = append(trues, pathRes{append([]atom(nil), atoms...), fam(atoms)})
+					trues = append(trues, pathRes{append([]atom(nil), atoms...), v6len})
 				}
 				return
 			}
-			// a final comparison (possibly && chain already expanded into the CFG)
+			// a final comparison (the && / || chain is already expanded into the CFG)
 			a, pos := normCond(v)
-			if at, ok := byteAtom(a); ok && pos {
-				as := append(append([]atom(nil), atoms...), at)
-				trues = append(trues, pathRes{as, fam(as)})
+			if at, ok := byteAtom(a); ok {
+				if !pos {
+					at = negate(at)
+				}
+				trues = append(trues, pathRes{append(append([]atom(nil), atoms...), at), v6len})
 				return
 			}
-			// len(ip) == 16 && ... is lowered to CFG; a bare len test returning true would be wrong
 			undec = "IsLocal returns a value that is not a constant or a byte comparison (" + v.String() + ")"
 		case *ssa.If:
 			a, pos := normCond(t.Cond)
 			if at, ok := byteAtom(a); ok {
-				// true edge adds the atom (if pos), false edge adds nothing
 				tIdx, fIdx := 0, 1
 				if !pos {
 					tIdx, fIdx = 1, 0
 				}
-				dfs(b.Succs[tIdx], b, append(atoms, at), v6len, seen)
-				dfs(b.Succs[fIdx], b, atoms, v6len, seen)
+				dfs(b.Succs[tIdx], b, append(append([]atom(nil), atoms...), at), v6len, seen)
+				dfs(b.Succs[fIdx], b, append(append([]atom(nil), atoms...), negate(at)), v6len, seen)
 				return
 			}
 			// ip4 != nil
@@ -366,71 +387,123 @@ func (c *Ctx) checkIsLocalTable(fn *ssa.Function) {
 		c.undecided(rule, "util.IsLocal is a disjunction of byte tests", p.Pos(fn.Pos()), undec+": a new recogniser is needed")
 		return
 	}
-	// atoms -> CIDR
-	toCIDR := func(pr pathRes) string {
-		bits := 0
-		var bytes [16]int64
-		as := append([]atom(nil), pr.atoms...)
-		sort.Slice(as, func(i, j int) bool { return as[i].k < as[j].k })
-		// repeated tests of one byte: identical ones collapse, contradictory ones make the path infeasible
-		var uniq []atom
-		for _, a := range as {
-			dup := false
-			for _, u := range uniq {
-				if u.k == a.k {
-					if u.mask == 0xff && a.mask == 0xff && u.val != a.val {
-						return "" // infeasible path
-					}
-					if u.mask == a.mask && u.val == a.val {
-						dup = true
-					}
+	// Evaluate the decision exactly over the leading bytes: each true path is a
+	// product of per-byte value sets; IsLocal(addr) holds iff some true path
+	// admits every byte of addr. The RFC ranges constrain bytes 0-1 (IPv4) and
+	// byte 0 (IPv6) only, so a path that constrains a later byte makes the
+	// verdict depend on more than the table allows and is reported.
+	type prod struct {
+		fam  string
+		sets map[int64]*[256]bool
+	}
+	var prods []prod
+	deep := ""
+	for _, t := range trues {
+		pr := prod{sets: map[int64]*[256]bool{}}
+		var base ssa.Value
+		mixed := false
+		for _, a := range t.atoms {
+			if base == nil {
+				base = a.base
+			} else if base != a.base {
+				mixed = true
+			}
+			cur, ok := pr.sets[a.k]
+			if !ok {
+				full := [256]bool{}
+				for v := range full {
+					full[v] = true
+				}
+				cur = &full
+				pr.sets[a.k] = cur
+			}
+			for v := 0; v < 256; v++ {
+				cur[v] = cur[v] && a.set[v]
+			}
+		}
+		feasible := true
+		for _, st := range pr.sets {
+			any := false
+			for _, x := range st {
+				any = any || x
+			}
+			if !any {
+				feasible = false
+			}
+		}
+		if !feasible {
+			continue
+		}
+		switch {
+		case mixed:
+			deep = "a true path tests bytes of both the 4-byte and the 16-byte form"
+		case base == nil:
+			deep = "a true path without any byte test: IsLocal holds for every address of a family"
+		case base == to4:
+			pr.fam = "v4"
+		case t.v6len:
+			pr.fam = "v6"
+		default:
+			deep = "a true path indexes the address without len(ip) == 16 or To4() != nil"
+		}
+		limit := int64(1)
+		if pr.fam == "v6" {
+			limit = 0
+		}
+		for k, st := range pr.sets {
+			if k > limit {
+				full := true
+				for _, x := range st {
+					full = full && x
+				}
+				if !full {
+					deep = fmt.Sprintf("a true path constrains byte %d of the %s form", k, pr.fam)
 				}
 			}
-			if !dup {
-				uniq = append(uniq, a)
-			}
 		}
-		as = uniq
-		for i, a := range as {
-			if int(a.k) != i {
-				return fmt.Sprintf("?non-contiguous byte %d", a.k)
-			}
-			// mask must be a left-aligned run of ones
-			m := a.mask & 0xff
-			n := 0
-			for bit := 7; bit >= 0 && m&(1<<uint(bit)) != 0; bit-- {
-				n++
-			}
-			if m != (0xff<<uint(8-n))&0xff {
-				return fmt.Sprintf("?mask %#x is not a prefix mask", a.mask)
-			}
-			if a.val&^m != 0 {
-				return fmt.Sprintf("?value %#x has bits outside mask %#x (never true)", a.val, a.mask)
-			}
-			if n < 8 && i != len(as)-1 {
-				return "?partial mask before the last byte"
-			}
-			bytes[i] = a.val
-			bits += n
-		}
-		if pr.fam == "v4" {
-			return fmt.Sprintf("%d.%d.%d.%d/%d", bytes[0], bytes[1], bytes[2], bytes[3], bits)
-		}
-		if pr.fam == "v6" {
-			return fmt.Sprintf("%02x%02x::/%d", bytes[0], bytes[1], bits)
-		}
-		return "?family"
+		prods = append(prods, pr)
 	}
-	got := map[string]bool{}
-	for _, t := range trues {
-		if cidr := toCIDR(t); cidr != "" {
-			got[cidr] = true
+	admits := func(pr prod, k int64, v int) bool {
+		st, ok := pr.sets[k]
+		return !ok || st[v]
+	}
+	wantV4 := func(b0, b1 int) bool {
+		return b0 == 10 || (b0 == 172 && b1&0xf0 == 16) || (b0 == 192 && b1 == 168) || (b0 == 100 && b1&0xc0 == 64) || (b0 == 169 && b1 == 254)
+	}
+	var diffs []string
+	nDiff := 0
+	for b0 := 0; b0 < 256; b0++ {
+		for b1 := 0; b1 < 256; b1++ {
+			got := false
+			for _, pr := range prods {
+				if pr.fam == "v4" && admits(pr, 0, b0) && admits(pr, 1, b1) {
+					got = true
+				}
+			}
+			if got != wantV4(b0, b1) {
+				nDiff++
+				if len(diffs) < 4 {
+					diffs = append(diffs, fmt.Sprintf("%d.%d.x.x: IsLocal=%v, table=%v", b0, b1, got, wantV4(b0, b1)))
+				}
+			}
+		}
+		got6 := false
+		for _, pr := range prods {
+			if pr.fam == "v6" && admits(pr, 0, b0) {
+				got6 = true
+			}
+		}
+		if want6 := b0&0xfe == 0xfc; got6 != want6 {
+			nDiff++
+			if len(diffs) < 4 {
+				diffs = append(diffs, fmt.Sprintf("%02x00::/8: IsLocal=%v, table=%v", b0, got6, want6))
+			}
 		}
 	}
 	want := []string{"10.0.0.0/8", "100.64.0.0/10", "169.254.0.0/16", "172.16.0.0/12", "192.168.0.0/16", "fc00::/7"}
 	c.count("IsLocal true paths", len(trues))
-	c.check(sameStringSet(sortedKeys(got), want), rule, "util.IsLocal decides exactly the RFC 1918/6598/3927/4193 ranges", p.Pos(fn.Pos()), strings.Join(sortedKeys(got), " "),
-		fmt.Sprintf("IsLocal decides %v, expected %v: an address on a range boundary is misclassified (a private address is sent to the broker, or a public candidate is dropped)", sortedKeys(got), want))
+	c.check(nDiff == 0 && deep == "" && len(prods) >= 6, rule, "util.IsLocal decides exactly the RFC 1918/6598/3927/4193 ranges", p.Pos(fn.Pos()), fmt.Sprintf("%d feasible true paths, evaluated over all 65536 leading IPv4 byte pairs and 256 leading IPv6 bytes against %s", len(prods), strings.Join(want, " ")),
+		fmt.Sprintf("IsLocal differs from the table {%s} on %d leading-byte classes (%s) %s: an address on a range boundary is misclassified (a private address is sent to the broker, or a public candidate is dropped)", strings.Join(want, " "), nDiff, strings.Join(diffs, "; "), deep))
 }
 
 func (c *Ctx) checkStripFilter(fn, isLocal *ssa.Function) {
@@ -464,69 +537,73 @@ func (c *Ctx) checkStripFilter(fn, isLocal *ssa.Function) {
 	if reachPath(body, app.Block(), nil) == nil {
 		body = header.Succs[1]
 	}
-	callEdge := func(name string, want bool) []Edge {
-		return boolEdges(fn, want, func(v ssa.Value) bool {
+	callSpec := func(name string, want bool) condSpec {
+		return sBool(want, func(v ssa.Value) bool {
 			cc, _, ok := callResult(v)
 			return ok && strings.HasSuffix(calleeName(cc), name)
 		})
 	}
+	// the parsing calls, in the filter or in a boolean helper it consults
 	var unm *ssa.Call
-	for _, ci := range callsIn(fn) {
-		if strings.HasSuffix(calleeName(ci), "ice/v2.UnmarshalCandidate") {
-			unm, _ = ci.(*ssa.Call)
-		}
+	for _, d := range deepInstrs(fn, 2, func(in ssa.Instruction) bool {
+		ci, ok := in.(ssa.CallInstruction)
+		return ok && strings.HasSuffix(calleeName(ci), "ice/v2.UnmarshalCandidate")
+	}) {
+		unm, _ = d.In.(*ssa.Call)
 	}
 	var parse *ssa.Call
-	for _, ci := range callsTo(fn, "net.ParseIP") {
-		parse, _ = ci.(*ssa.Call)
+	for _, d := range deepCalls(fn, 2, "net.ParseIP") {
+		parse, _ = d.In.(*ssa.Call)
 	}
 	conds := []struct {
 		what  string
-		edges []Edge
+		specs []condSpec
 	}{
-		{"IsICECandidate()", callEdge("sdp/v3.Attribute).IsICECandidate", true)},
-		{"Type() == CandidateTypeHost", condEdges(fn, true, func(a Atom) bool {
+		{"IsICECandidate()", []condSpec{callSpec("sdp/v3.Attribute).IsICECandidate", true)}},
+		{"Type() == CandidateTypeHost", []condSpec{sCond(true, func(a Atom) bool {
 			if a.Op != token.EQL {
 				return false
 			}
 			cc, _, ok := callResult(a.X)
 			k, okk := constInt(a.Y)
 			return ok && okk && strings.HasSuffix(calleeName(cc), "Candidate).Type") && k == 1
-		})},
+		})}},
 	}
 	if unm != nil {
 		conds = append(conds, struct {
 			what  string
-			edges []Edge
-		}{"UnmarshalCandidate err == nil", errNilEdges(fn, unm, 1)})
+			specs []condSpec
+		}{"UnmarshalCandidate err == nil", []condSpec{sEq(true, func(v ssa.Value) bool { return isResultOfCall1(v, unm, 1) }, isNilConst)}})
 	}
 	if parse != nil {
 		conds = append(conds, struct {
 			what  string
-			edges []Edge
-		}{"ParseIP != nil", nilCheckEdges(fn, false, func(v ssa.Value) bool { return v == ssa.Value(parse) })})
+			specs []condSpec
+		}{"ParseIP != nil", []condSpec{sEq(false, func(v ssa.Value) bool { return v == ssa.Value(parse) }, isNilConst)}})
 	}
-	var anyLocal []Edge
+	var anyLocal []condSpec
 	nPred := 0
 	for _, nm := range []string{"common/util.IsLocal", "(net.IP).IsUnspecified", "(net.IP).IsLoopback"} {
-		e := boolEdges(fn, true, func(v ssa.Value) bool {
+		nm := nm
+		sp := sBool(true, func(v ssa.Value) bool {
 			cc, _, ok := callResult(v)
 			return ok && calleeName(cc) == nm && parse != nil && cc.Call.Args[0] == ssa.Value(parse)
 		})
-		if len(e) > 0 {
+		if specSeen(fn, sp, 2) > 0 {
 			nPred++
 		}
-		anyLocal = append(anyLocal, e...)
+		anyLocal = append(anyLocal, sp)
 	}
 	conds = append(conds, struct {
 		what  string
-		edges []Edge
+		specs []condSpec
 	}{"IsLocal || IsUnspecified || IsLoopback", anyLocal})
 	c.check(nPred == 3 && unm != nil && parse != nil, rule, "the filter consults IsLocal, IsUnspecified and IsLoopback on the parsed candidate address", p.Pos(fn.Pos()), "", fmt.Sprintf("only %d of the three address predicates are applied to the parsed address", nPred))
 	blockedAppend := func(b *ssa.BasicBlock) bool { return b == app.Block() }
 	for _, cd := range conds {
-		path := psSearch(body, cd.edges, blockedAppend, func(b *ssa.BasicBlock) bool { return b == header })
-		c.check(len(cd.edges) > 0 && path == nil, rule, "an attribute is skipped only behind "+cd.what, p.instrPos(app), "",
+		edges := predEdgesS(fn, cd.specs, 2)
+		path := psSearch(body, edges, blockedAppend, func(b *ssa.BasicBlock) bool { return b == header })
+		c.check(len(edges) > 0 && path == nil, rule, "an attribute is skipped only behind "+cd.what, p.instrPos(app), "",
 			"an attribute can be dropped without "+cd.what+" having held: something other than a local host candidate is lost", p.pathString(path)...)
 	}
 	// appended value is the loop's attribute; the slice is made inside the media loop
